@@ -79,111 +79,225 @@ end
 section
 variable {α : Type} (tl : α → Str × Str)
 
-/-- forward description of the batching loop once a first group exists: `g` is the open (last) group -/
-def extend (g : Group α) : List α → List (Group α)
-  | [] => [g]
-  | x :: xs =>
-    if g.title ≠ (tl x).2 then g :: extend { title := (tl x).2, label := (tl x).1, items := [x] } xs
-    else extend { g with items := g.items ++ [x] } xs
+/-- forward description of one round of the batching loop: the entry joins the batch of its title, or opens a
+    new batch at the end when there is none -/
+def addItem (gs : List (Group α)) (x : α) : List (Group α) :=
+  match appendTo (tl x).2 x gs with
+  | some gs' => gs'
+  | none => gs ++ [{ title := (tl x).2, label := (tl x).1, items := [x] }]
 
-theorem appendLast_some (x : α) : ∀ (gs : List (Group α)) (g : Group α),
-    appendLast x (gs ++ [g]) = some (gs ++ [{ g with items := g.items ++ [x] }]) := by
+theorem appendTo_none_iff (t : Str) (x : α) : ∀ gs : List (Group α),
+    appendTo t x gs = none ↔ ∀ g ∈ gs, g.title ≠ t := by
   intro gs; induction gs with
-  | nil => intro g; simp [appendLast]
-  | cons a gs ih =>
-    intro g
-    cases hgs : gs ++ [g] with
-    | nil => simp at hgs
-    | cons b r =>
-      have := ih g
-      rw [hgs] at this
-      simp only [List.cons_append, hgs, appendLast, this, Option.map_some]
+  | nil => simp [appendTo]
+  | cons g gs ih =>
+    simp only [appendTo]
+    split
+    · rename_i h; simp [h]
+    · rename_i h; simp [ih, h]
 
-theorem groupsGo_extend : ∀ (xs : List α) (init : List (Group α)) (g : Group α),
-    groupsGo tl xs g.title (init ++ [g]) = .ok (init ++ extend tl g xs) := by
+theorem appendTo_decomp (t : Str) (x : α) : ∀ (gs gs' : List (Group α)), appendTo t x gs = some gs' →
+    ∃ pre g post, gs = pre ++ g :: post ∧ g.title = t ∧ (∀ h ∈ pre, h.title ≠ t) ∧
+      gs' = pre ++ { g with items := g.items ++ [x] } :: post := by
+  intro gs; induction gs with
+  | nil => intro gs' h; simp [appendTo] at h
+  | cons g gs ih =>
+    intro gs' h
+    simp only [appendTo] at h
+    split at h
+    · rename_i ht
+      exact ⟨[], g, gs, rfl, ht, by simp, by simpa using h.symm⟩
+    · rename_i ht
+      cases hr : appendTo t x gs with
+      | none => simp [hr] at h
+      | some r =>
+        simp only [hr, Option.map_some, Option.some.injEq] at h
+        obtain ⟨pre, g0, post, e1, e2, e3, e4⟩ := ih r hr
+        refine ⟨g :: pre, g0, post, by simp [e1], e2, ?_, by simp [← h, e4]⟩
+        intro h0 hh
+        rcases List.mem_cons.mp hh with e | hh
+        · subst e; exact ht
+        · exact e3 h0 hh
+
+theorem appendTo_append_new (t l : Str) (x : α) : ∀ gs : List (Group α), (∀ g ∈ gs, g.title ≠ t) →
+    appendTo t x (gs ++ [{ title := t, label := l, items := [] }]) = some (gs ++ [{ title := t, label := l, items := [x] }]) := by
+  intro gs; induction gs with
+  | nil => intro _; simp [appendTo]
+  | cons g gs ih =>
+    intro h
+    have hg : ¬ g.title = t := h g (by simp)
+    simp only [List.cons_append, appendTo, hg, if_false]
+    rw [ih (fun g' hg' => h g' (List.mem_cons_of_mem _ hg'))]
+    rfl
+
+theorem groupsGo_eq : ∀ (xs : List α) (cur : Str) (bs : List (Group α)), (∃ g ∈ bs, g.title = cur) →
+    groupsGo tl xs cur bs = .ok (xs.foldl (addItem tl) bs) := by
   intro xs; induction xs with
-  | nil => intro init g; simp [groupsGo, extend]
+  | nil => intro cur bs _; simp [groupsGo]
   | cons x xs ih =>
-    intro init g
-    simp only [groupsGo, extend]
-    by_cases h : g.title = (tl x).2
-    · have hne : ¬ (g.title ≠ (tl x).2) := by simp [h]
-      rw [if_neg hne, if_neg hne, appendLast_some, ← h]
-      exact ih init { g with items := g.items ++ [x] }
-    · simp only [ne_eq, h, not_false_eq_true, if_true]
-      have e : init ++ [g] ++ [{ title := (tl x).2, label := (tl x).1, items := ([] : List α) }]
-          = (init ++ [g]) ++ [{ title := (tl x).2, label := (tl x).1, items := [] }] := rfl
-      rw [appendLast_some]
-      have := ih (init ++ [g]) { title := (tl x).2, label := (tl x).1, items := [] ++ [x] }
-      simpa using this
+    intro cur bs hcur
+    simp only [groupsGo, List.foldl_cons]
+    cases hap : appendTo (tl x).2 x bs with
+    | none =>
+      have hno := (appendTo_none_iff (tl x).2 x bs).mp hap
+      have hne : cur ≠ (tl x).2 := by
+        obtain ⟨g, hg, e⟩ := hcur
+        intro e2; exact hno g hg (e.trans e2)
+      have hany : (bs.any fun g => decide (g.title = (tl x).2)) = false := by
+        simp only [List.any_eq_false, decide_eq_true_eq]
+        exact hno
+      simp only [ne_eq, hne, not_false_eq_true, hany, Bool.false_eq_true, and_self, if_true]
+      rw [appendTo_append_new _ _ _ _ hno]
+      simp only [addItem, hap]
+      exact ih _ _ ⟨{ title := (tl x).2, label := (tl x).1, items := [x] }, by simp, rfl⟩
+    | some gs' =>
+      have hex : ∃ g ∈ bs, g.title = (tl x).2 := by
+        apply Classical.byContradiction
+        intro hn
+        have := (appendTo_none_iff (tl x).2 x bs).mpr (fun g hg e => hn ⟨g, hg, e⟩)
+        rw [hap] at this; cases this
+      have hany : (bs.any fun g => decide (g.title = (tl x).2)) = true := by
+        simp only [List.any_eq_true, decide_eq_true_eq]; exact hex
+      simp only [hany, not_true_eq_false, and_false, if_false, hap]
+      simp only [addItem, hap]
+      obtain ⟨pre, g, post, e1, e2, e3, e4⟩ := appendTo_decomp _ _ _ _ hap
+      exact ih _ _ ⟨{ g with items := g.items ++ [x] }, by rw [e4]; simp, e2⟩
 
 theorem groupItems_cons (x : α) (xs : List α) (h : (tl x).2 ≠ []) :
-    groupItems tl (x :: xs) = .ok (extend tl { title := (tl x).2, label := (tl x).1, items := [x] } xs) := by
-  simp only [groupItems, groupsGo]
+    groupItems tl (x :: xs) = .ok ((x :: xs).foldl (addItem tl) []) := by
   have h' : ([] : Str) ≠ (tl x).2 := fun e => h e.symm
-  simp only [ne_eq, h', not_false_eq_true, if_true, List.nil_append, appendLast]
-  have := groupsGo_extend tl xs [] { title := (tl x).2, label := (tl x).1, items := [] ++ [x] }
-  simpa using this
+  have e := groupsGo_eq tl xs (tl x).2 [{ title := (tl x).2, label := (tl x).1, items := [x] }]
+    ⟨{ title := (tl x).2, label := (tl x).1, items := [x] }, by simp, rfl⟩
+  simp only [groupItems, groupsGo, List.foldl_cons]
+  simp [h', appendTo, addItem, e]
 
-/-- an item whose title is the empty string as first item: `batches[-1]` on the empty list -/
+/-- an entry whose title is the empty string as *first* entry: `bytitle['']` does not exist yet -/
 theorem groupItems_empty_title (x : α) (xs : List α) (h : (tl x).2 = []) :
-    groupItems tl (x :: xs) = .error .indexError := by
-  simp [groupItems, groupsGo, h, appendLast]
+    groupItems tl (x :: xs) = .error .keyError := by
+  simp [groupItems, groupsGo, h, appendTo]
 
-theorem extend_flat : ∀ (xs : List α) (g : Group α),
-    (extend tl g xs).flatMap (·.items) = g.items ++ xs := by
-  intro xs; induction xs with
-  | nil => intro g; simp [extend]
-  | cons x xs ih =>
-    intro g; simp only [extend]; split
-    · simp [ih]
-    · simp [ih]
+/-- what holds after every round: `done` = the entries processed so far -/
+structure GInv (done : List α) (gs : List (Group α)) : Prop where
+  nodup : (gs.map (·.title)).Nodup
+  items : ∀ g ∈ gs, g.items = done.filter (fun x => (tl x).2 = g.title) ∧ g.items ≠ []
+  covered : ∀ x ∈ done, ∃ g ∈ gs, g.title = (tl x).2
+  heads : (gs.filterMap (·.items.head?)).Sublist done
+  perm : (gs.flatMap (·.items)).Perm done
 
-theorem extend_titled : ∀ (xs : List α) (g : Group α),
-    (g.items ≠ [] ∧ ∀ x ∈ g.items, (tl x).2 = g.title) →
-    ∀ h ∈ extend tl g xs, h.items ≠ [] ∧ ∀ x ∈ h.items, (tl x).2 = h.title := by
-  intro xs; induction xs with
-  | nil => intro g hg h hh; simp [extend] at hh; subst hh; exact hg
-  | cons x xs ih =>
-    intro g hg h hh
-    simp only [extend] at hh
-    split at hh
-    · rcases List.mem_cons.mp hh with e | hh
-      · subst e; exact hg
-      · exact ih _ (by simp) h hh
-    · rename_i ht
-      have ht : g.title = (tl x).2 := by simpa using ht
-      refine ih _ ?_ h hh
-      refine ⟨by simp, ?_⟩
+theorem addItem_inv (done : List α) (gs : List (Group α)) (x : α) (h : GInv tl done gs) :
+    GInv tl (done ++ [x]) (addItem tl gs x) := by
+  unfold addItem
+  cases hap : appendTo (tl x).2 x gs with
+  | none =>
+    have hno := (appendTo_none_iff (tl x).2 x gs).mp hap
+    have hfil : done.filter (fun y => (tl y).2 = (tl x).2) = [] := by
+      rw [List.filter_eq_nil_iff]
       intro y hy
+      obtain ⟨g, hg, e⟩ := h.covered y hy
+      simp only [decide_eq_true_eq]
+      intro e2; exact hno g hg (e.trans e2)
+    constructor
+    · simp only [List.map_append, List.map_cons, List.map_nil]
+      rw [List.nodup_append]
+      refine ⟨h.nodup, by simp, ?_⟩
+      intro a ha b hb
+      simp only [List.mem_singleton] at hb
+      obtain ⟨g, hg, e⟩ := List.mem_map.mp ha
+      subst hb; rw [← e]; exact hno g hg
+    · intro g hg
+      rcases List.mem_append.mp hg with hg | hg
+      · have := h.items g hg
+        have hne : ¬ (tl x).2 = g.title := fun e => hno g hg e.symm
+        refine ⟨?_, this.2⟩
+        rw [List.filter_append, ← this.1]
+        simp [hne]
+      · simp only [List.mem_singleton] at hg
+        subst hg
+        simp [List.filter_append, hfil]
+    · intro y hy
       rcases List.mem_append.mp hy with hy | hy
-      · exact hg.2 y hy
-      · simp at hy; subst hy; exact ht.symm
+      · obtain ⟨g, hg, e⟩ := h.covered y hy
+        exact ⟨g, List.mem_append_left _ hg, e⟩
+      · simp only [List.mem_singleton] at hy
+        subst hy
+        exact ⟨_, List.mem_append_right _ (List.mem_singleton.mpr rfl), rfl⟩
+    · simp only [List.filterMap_append, List.filterMap_cons, List.head?_cons, List.filterMap_nil]
+      exact List.Sublist.append h.heads (List.Sublist.refl _)
+    · simp only [List.flatMap_append, List.flatMap_cons, List.flatMap_nil, List.append_nil]
+      exact List.Perm.append h.perm (List.Perm.refl _)
+  | some gs' =>
+    obtain ⟨pre, g, post, e1, e2, e3, e4⟩ := appendTo_decomp _ _ _ _ hap
+    subst e4
+    have hnd := h.nodup
+    rw [e1] at hnd
+    simp only [List.map_append, List.map_cons] at hnd
+    have hpost : ∀ h0 ∈ post, h0.title ≠ (tl x).2 := by
+      intro h0 hh e
+      have := (List.nodup_append.mp hnd).2.1
+      have := (List.nodup_cons.mp this).1
+      apply this
+      rw [e2, ← e]
+      exact List.mem_map.mpr ⟨h0, hh, rfl⟩
+    have hg := h.items g (by rw [e1]; simp)
+    constructor
+    · simpa [e1] using h.nodup
+    · intro h0 hh
+      rcases List.mem_append.mp hh with hh | hh
+      · have := h.items h0 (by rw [e1]; simp [hh])
+        have hne : ¬ (tl x).2 = h0.title := fun e => e3 h0 hh e.symm
+        refine ⟨?_, this.2⟩
+        rw [List.filter_append, ← this.1]; simp [hne]
+      · rcases List.mem_cons.mp hh with e | hh
+        · subst e
+          refine ⟨?_, by simp⟩
+          simp only [List.filter_append]
+          rw [← hg.1]; simp [e2]
+        · have := h.items h0 (by rw [e1]; simp [hh])
+          have hne : ¬ (tl x).2 = h0.title := fun e => hpost h0 hh e.symm
+          refine ⟨?_, this.2⟩
+          rw [List.filter_append, ← this.1]; simp [hne]
+    · intro y hy
+      rcases List.mem_append.mp hy with hy | hy
+      · obtain ⟨g0, hg0, e⟩ := h.covered y hy
+        rw [e1] at hg0
+        rcases List.mem_append.mp hg0 with hm | hm
+        · exact ⟨g0, by simp [hm], e⟩
+        · rcases List.mem_cons.mp hm with e0 | hm
+          · subst e0; exact ⟨{ g0 with items := g0.items ++ [x] }, by simp, e⟩
+          · exact ⟨g0, by simp [hm], e⟩
+      · simp only [List.mem_singleton] at hy
+        subst hy
+        exact ⟨{ g with items := g.items ++ [y] }, by simp, e2⟩
+    · have hh : ({ g with items := g.items ++ [x] } : Group α).items.head? = g.items.head? := by
+        cases hgi : g.items with
+        | nil => exact absurd hgi hg.2
+        | cons a r => simp
+      have := h.heads
+      rw [e1] at this
+      simp only [List.filterMap_append, List.filterMap_cons] at this ⊢
+      rw [hh]
+      exact this.trans (List.sublist_append_left _ _)
+    · have := h.perm
+      rw [e1] at this
+      simp only [List.flatMap_append, List.flatMap_cons] at this ⊢
+      have e : pre.flatMap (·.items) ++ (g.items ++ [x] ++ post.flatMap (·.items)) =
+          pre.flatMap (·.items) ++ (g.items ++ ([x] ++ post.flatMap (·.items))) := by simp
+      rw [e]
+      refine List.Perm.trans ?_ (List.Perm.append this (List.Perm.refl [x]))
+      rw [List.append_assoc (pre.flatMap _), List.append_assoc g.items]
+      refine List.Perm.append_left _ (List.Perm.append_left _ ?_)
+      exact List.perm_append_comm
 
-/-- adjacent groups carry different titles -/
-def AdjNe : List (Group α) → Prop
-  | a :: b :: r => a.title ≠ b.title ∧ AdjNe (b :: r)
-  | _ => True
-
-theorem extend_head : ∀ (xs : List α) (g : Group α), ∃ h r, extend tl g xs = h :: r ∧ h.title = g.title := by
+theorem foldl_addItem_inv : ∀ (xs done : List α) (gs : List (Group α)), GInv tl done gs →
+    GInv tl (done ++ xs) (xs.foldl (addItem tl) gs) := by
   intro xs; induction xs with
-  | nil => intro g; exact ⟨g, [], by simp [extend], rfl⟩
+  | nil => intro done gs h; simpa using h
   | cons x xs ih =>
-    intro g; simp only [extend]; split
-    · exact ⟨g, _, rfl, rfl⟩
-    · obtain ⟨h, r, e, t⟩ := ih { g with items := g.items ++ [x] }
-      exact ⟨h, r, e, t⟩
+    intro done gs h
+    have := ih (done ++ [x]) _ (addItem_inv tl done gs x h)
+    simpa using this
 
-theorem extend_adj : ∀ (xs : List α) (g : Group α), AdjNe (extend tl g xs) := by
-  intro xs; induction xs with
-  | nil => intro g; simp [extend, AdjNe]
-  | cons x xs ih =>
-    intro g; simp only [extend]; split
-    · rename_i hne
-      obtain ⟨h, r, e, t⟩ := extend_head tl xs { title := (tl x).2, label := (tl x).1, items := [x] }
-      have := ih { title := (tl x).2, label := (tl x).1, items := [x] }
-      rw [e] at this ⊢
-      exact ⟨by rw [t]; exact hne, this⟩
-    · exact ih _
+theorem GInv_nil : GInv tl ([] : List α) [] :=
+  ⟨by simp, by simp, by simp, by simp, by simp⟩
 end
 end PlasVerif.Proofs.Index
